@@ -79,7 +79,7 @@ fn pc(max: Duration, limit: Option<u32>, init: Duration, count0: u32, n: u32) ->
 
 impl Property for P {
     type Case = Case;
-    fn fixed(_tier: &str) -> Vec<Case> {
+    fn fixed(tier: &str) -> Vec<Case> {
         let ms = Duration::from_millis;
         let mut v = vec![
             pc(ms(30000), Some(10), ms(500), 0, 12),
@@ -111,6 +111,12 @@ impl Property for P {
         // above 0 retried for ever with the initial delay
         for (l, n) in [(0i32, 3u32), (1, 4), (2, 3), (2, 2), (3, 6), (-1, 5), (4, 5), (4, 4)] {
             v.push(Case { how: How::Config(l), pre: 0, connect: true, max: ms(2), limit: None, init: ms(1), count0: 0, n });
+        }
+        if tier == "thorough" {
+            // every limit -1..5 against every observation bound 0..7 (at, below and above limit + 1)
+            for l in -1i32..=5 { for n in 0u32..=7 {
+                v.push(Case { how: How::Config(l), pre: 0, connect: true, max: Duration::from_micros(700 + 100 * n as u64), limit: None, init: Duration::from_micros(300 + 50 * (l + 1) as u64), count0: 0, n });
+            } }
         }
         v
     }
